@@ -18,6 +18,8 @@ func init() {
 				Quick: map[string]int{}, Witnesses: []string{"oversized-copydata", "query-inside-the-oversized-body"}},
 			{Pkg: "wire", Entry: "VerifH13d", What: "binary COPY read through the library's row reader: whether the COPY ended well is decided by CopyDone / CopyFail / a non-COPY message, also when the data already carried its end-of-data trailer",
 				Quick: map[string]int{"TUPLES": 2}, Witnesses: []string{"completed", "copyfail-after-trailer"}},
+			{Pkg: "wire", Entry: "VerifH13e", What: "COPY-in started through Parse/Bind/Execute with any admissible Bind result-format codes: the CopyInResponse announces the handler's requested format overall and per column, payloads in order, one CommandComplete or ErrorResponse and one ReadyForQuery at Sync",
+				Quick: map[string]int{"K": 2}, Witnesses: []string{"bind-result-formats-differ-from-the-copy-format", "extended-copy-aborted", "extended-copy-completed"}},
 		},
 	})
 	props = append(props, PropSpec{
